@@ -73,11 +73,35 @@ theorem subs_len (subs : List GifSub) (h : SubsOk subs) : subs.length ≤ (write
       simp only [writeGifSubs, List.flatMap_cons, List.length_append, List.length_cons, writeGifSub] at this ⊢
       omega
 
+/-- a chain: no sub-blocks at all (lone terminator), or a well formed sequence of non-empty sub-blocks -/
+def ChainOk (subs : List GifSub) : Prop := subs = [] ∨ SubsOk subs
+
+theorem chain_rt (subs : List GifSub) (h : ChainOk subs) (rest : Bytes) :
+    gifChain (writeGifChain subs ++ rest) = some (subs, rest) := by
+  rcases h with h | h
+  · subst h; simp [writeGifChain, gifChain]
+  · cases subs with
+    | nil => exact absurd h (by simp [SubsOk])
+    | cons s tl =>
+      have hc : 1 ≤ s.count ∧ s.count ≤ 255 := by
+        cases tl with
+        | nil => exact ⟨h.2.1, h.2.2.1⟩
+        | cons a b => exact ⟨h.2.1, h.2.2.1⟩
+      have hlen := subs_len (s :: tl) h
+      have hw : writeGifChain (s :: tl) ++ rest = UInt8.ofNat s.count :: (s.data ++ termBytes s.term ++ (writeGifSubs tl ++ rest)) := by
+        simp [writeGifChain, writeGifSubs, writeGifSub, List.append_assoc]
+      have hw2 : writeGifSubs (s :: tl) ++ rest = UInt8.ofNat s.count :: (s.data ++ termBytes s.term ++ (writeGifSubs tl ++ rest)) := by
+        simp [writeGifSubs, writeGifSub, List.append_assoc]
+      rw [hw, gifChain]
+      simp only [ofNat_ne_zero_u8 _ hc.1 hc.2, if_false]
+      rw [← hw2]
+      exact subs_rt (s :: tl) _ rest h (by simp only [List.length_append]; omega)
+
 def BlockOk : GifBlock → Prop
-  | .ext intro code subs => intro = 0x21 ∧ code ≤ 255 ∧ SubsOk subs
+  | .ext intro code subs => intro = 0x21 ∧ code ≤ 255 ∧ ChainOk subs
   | .image sep l t w h lcm _ zero bd cs lmap subs =>
     sep = 0x2c ∧ l < 2 ^ 16 ∧ t < 2 ^ 16 ∧ w < 2 ^ 16 ∧ h < 2 ^ 16 ∧ zero < 8 ∧ 1 ≤ bd ∧ bd ≤ 8 ∧ cs ≤ 255 ∧
-    (lcm = true → ∃ m, lmap = some m ∧ m.length = 3 * 2 ^ bd) ∧ (lcm = false → lmap = none) ∧ SubsOk subs
+    (lcm = true → ∃ m, lmap = some m ∧ m.length = 3 * 2 ^ bd) ∧ (lcm = false → lmap = none) ∧ ChainOk subs
 
 theorem packed_image (lcm il : Bool) (zero bd : Nat) (hz : zero < 8) (h1 : 1 ≤ bd) (h8 : bd ≤ 8) :
     let f := (UInt8.ofNat (128 * b2 lcm + 64 * b2 il + 8 * zero + (bd - 1))).toNat
@@ -95,16 +119,14 @@ theorem block_rt (b : GifBlock) (ok : BlockOk b) (rest : Bytes) :
   | ext intro code subs =>
     obtain ⟨hi, hc, hs⟩ := ok
     subst hi
-    have hl := subs_len subs hs
     simp only [writeGifBlockAsIs, List.cons_append, List.nil_append, gifBlock]
     have e : (UInt8.ofNat 33 : UInt8) = 0x21 := by decide
     simp only [e, if_true]
-    rw [subs_rt subs _ rest hs (by simp only [List.length_append]; omega)]
+    rw [chain_rt subs hs rest]
     rw [ofNat_toNat_u8 _ hc]
   | image sep l t w h lcm il zero bd cs lmap subs =>
     obtain ⟨hsep, hl, ht, hw, hh, hz, hb1, hb8, hcs, hlm1, hlm0, hs⟩ := ok
     subst hsep
-    have hlen := subs_len subs hs
     obtain ⟨p7, p6, pz, pb⟩ := packed_image lcm il zero bd hz hb1 hb8
     have e : (UInt8.ofNat 44 : UInt8) = 0x2c := by decide
     have ne : ¬ ((0x2c : UInt8) = 0x21) := by decide
@@ -118,7 +140,7 @@ theorem block_rt (b : GifBlock) (ok : BlockOk b) (rest : Bytes) :
       have := hlm0 rfl
       subst this
       simp only [Bool.false_eq_true, if_false, optBytes, List.nil_append, Option.bind_some]
-      rw [subs_rt subs _ rest hs (by simp only [List.length_append]; omega)]
+      rw [chain_rt subs hs rest]
       simp
     | true =>
       obtain ⟨m, hm, hml⟩ := hlm1 rfl
@@ -126,17 +148,17 @@ theorem block_rt (b : GifBlock) (ok : BlockOk b) (rest : Bytes) :
       simp only [if_true, optBytes]
       rw [takeN_append m _ _ hml]
       simp only [Option.map_some, Option.bind_some]
-      rw [subs_rt subs _ rest hs (by simp only [List.length_append]; omega)]
+      rw [chain_rt subs hs rest]
       simp
 
 theorem block_first (b : GifBlock) (ok : BlockOk b) (rest : Bytes) :
     ∃ c r, writeGifBlockAsIs b ++ rest = c :: r ∧ c ≠ 0x3b := by
   cases b with
   | ext intro code subs =>
-    exact ⟨UInt8.ofNat intro, UInt8.ofNat code :: (writeGifSubs subs ++ rest), by simp [writeGifBlockAsIs], by rw [ok.1]; decide⟩
+    exact ⟨UInt8.ofNat intro, UInt8.ofNat code :: (writeGifChain subs ++ rest), by simp [writeGifBlockAsIs], by rw [ok.1]; decide⟩
   | image sep l t w h lcm il zero bd cs lmap subs =>
     exact ⟨UInt8.ofNat sep, toLE 2 l ++ (toLE 2 t ++ (toLE 2 w ++ (toLE 2 h ++
-      (UInt8.ofNat (128 * b2 lcm + 64 * b2 il + 8 * zero + (bd - 1)) :: UInt8.ofNat cs :: (optBytes lmap ++ (writeGifSubs subs ++ rest)))))),
+      (UInt8.ofNat (128 * b2 lcm + 64 * b2 il + 8 * zero + (bd - 1)) :: UInt8.ofNat cs :: (optBytes lmap ++ (writeGifChain subs ++ rest)))))),
       by simp only [writeGifBlockAsIs, List.cons_append, List.nil_append, List.append_assoc], by rw [ok.1]; decide⟩
 
 theorem blocks_rt (bs : List GifBlock) (hok : ∀ b ∈ bs, BlockOk b) : ∀ (fuel : Nat) (rest : Bytes), bs.length < fuel →
